@@ -5,8 +5,8 @@ FCM = ('contracts.qualitative', None)
 ENUM = ('contracts.base_carver', ['combinations_at_index', 'consecutive_combinations', 'consecutive_combinations@top', 'nan_combinations', 'order_apply_combination'])
 
 REGISTRY = {
- 'C01': dict(level='other', P=[ENUM], R=['rtc.c01_carver'],
-             explanation='PROVED (engine P, all inputs): the candidate enumerators are sound and complete w.r.t. the recursive spec InPart (every and only order-contiguous '
+ 'C01': dict(level='other', P=[ENUM, ('contracts.measures', ['BinaryCarver._association_measure'])], R=['rtc.c01_carver'],
+             explanation='PROVED (engine P, all inputs): BinaryCarver._association_measure computes V = sqrt(chi2/n) and T = V/(rows-1)^(1/4) from the (opaque) scipy chi2; the candidate enumerators are sound and complete w.r.t. the recursive spec InPart (every and only order-contiguous '
                          'partitions into 2..max_n_mod groups are generated), NaN placements are exactly FlatMap(Block, C). BOUNDED (engine R, not counted as proved): the real '
                          'BinaryCarver/ContinuousCarver.fit against a brute-force oracle written from the property text (kept iff a viable candidate exists; fitted grouping is viable, '
                          'a union of base modalities, and attains the maximal measure over all viable candidates; two-stage NaN search) on count-table frames with exact ties / '
